@@ -139,6 +139,39 @@ def run_forge2(case) -> dict:
     return {"viol": viol, "digest": out.brief(), "key": common.key_hash(case), "fired": {"field": 4}, "probes": probes, "vtime_ns": 0}
 
 
+def run_shorttag(case) -> dict:
+    """["shorttag", base blob index, n]: the GCM parameters of the stored record are rewritten to announce an n-octet tag (aes-ICVlen,
+    RFC 5084) and the content is replaced by a ciphertext of the writer's choice carrying the first n octets of its tag.  (Finding
+    such a record without the CEK takes 2^(8n) trials; the check builds it with the CEK the reference recovers - the claim is over
+    every changed record.)  It must fail or give the original plaintext."""
+    from cryptography.hazmat.primitives.ciphers.aead import AESGCM
+
+    from ref import cms, der
+
+    _, bi, n = case
+    cat = blobs.catalogue(next(iter(blobs._CAT)))
+    b = cat[bi]
+    p = cms.parse_blob(b.blob)
+    _pt, cek, _kek = cms.unprotect_parsed(p, b.rk)
+    chosen = b"another secret, same length?"[: max(1, len(b.plaintext))] if n % 2 else b"chosen by whoever can write the record"
+    full = AESGCM(cek).encrypt(p["gcm_nonce"], chosen, None)
+    content = full[: len(chosen)] + full[len(chosen) : len(chosen) + n]
+    cea = der.seq(der.enc_oid(cms.OID_AES256_GCM), der.seq(der.octets(p["gcm_nonce"]), der.enc_int(n)))
+    forged = cms.build_blob(p["key_identifier_raw"], p["sid"], p["enc_cek"], p["gcm_nonce"], content, in_envelope="/env" in b.name, cea_raw=cea)
+    out, world, cnt = blobs.unprotect_stored(b, forged)
+    viol = None
+    probes = {"short_tag_records": 1}
+    if out.kind == "ok" and out.value != b.plaintext:
+        viol = common.violation("C04", "different-plaintext", "sync", "gcm-tag-length-rewritten", "", str(n),
+                                f"record {b.name}: GCM parameters rewritten to a {n}-octet tag, content replaced (ciphertext + first {n} tag octets): "
+                                f"decrypted to {out.value[:40]!r} instead of failing")
+    elif out.kind == "ok":
+        probes["outcome_same"] = 1
+    else:
+        probes["outcome_" + out.kind] = 1
+    return {"viol": viol, "digest": out.brief(), "key": common.key_hash(case), "fired": {"field": 2}, "probes": probes, "vtime_ns": 0}
+
+
 def run_libpair(case) -> dict:
     """["libpair", seed, fields, fl]: two blobs A and B are PROTECTED BY THE LIBRARY in one process (same root key, same SID); the stored A
     is then altered at rest by overwriting some of its fields with B's (content, GCM nonce, wrapped CEK, key identifier ...).  The
@@ -153,14 +186,20 @@ def run_libpair(case) -> dict:
            {"op": "protect", "fl": fl, "group": grp, "sid": offline.SID_A, "rk": 0, "net": "offline", "data": 24},
            {"op": "unprotect", "fl": "sync" if fl == "thread" else fl, "net": "offline", "blob": {"from_op": 1, "graft": {"from_op": 2, "fields": list(fields)}}},
            {"op": "unprotect", "fl": "sync" if fl == "thread" else fl, "net": "offline", "blob": {"from_op": 1}}]
+    b_first = seed % 3 == 1
+    if b_first:
+        # honest earlier use of the same cache: B itself (and, every other time, A too) was opened before the altered record arrives
+        ops.insert(3, {"op": "unprotect", "fl": "sync" if fl == "thread" else fl, "net": "offline", "blob": {"from_op": 2}})
+        if seed % 2:
+            ops.insert(3, {"op": "unprotect", "fl": "sync" if fl == "thread" else fl, "net": "offline", "blob": {"from_op": 1}})
     plan = {"seed": seed, "clock_ft": gkdi.interval_start_filetime(365, 3, 4) + seed, "root_keys": [[5, "SHA256", ("DH", "ECDH_P256")[seed % 2]]],
             "caller_sids": [offline.SID_A], "ctx": {"kind": "stub", "legs": 2, "sig": 16}, "ops": ops}
     if fl == "thread":
         plan["threads"] = case[4]
     tr = P.execute_plan(plan)
-    a, b_, crossed, plain = tr.ops[1], tr.ops[2], tr.ops[3], tr.ops[4]
+    a, b_, crossed, plain = tr.ops[1], tr.ops[2], tr.ops[-2], tr.ops[-1]
     viol = None
-    probes = {"library_made_pairs": 1, "library_made_pairs_threads": int(fl == "thread")}
+    probes = {"library_made_pairs": 1, "library_made_pairs_threads": int(fl == "thread"), "library_made_pairs_after_honest_use": int(b_first)}
     if a.outcome.kind != "ok" or b_.outcome.kind != "ok" or plain.outcome.kind != "ok" or plain.outcome.value != a.plaintext:
         raise common.HarnessError(f"library-made pair does not round-trip: {a.outcome.brief()} {b_.outcome.brief()} {plain.outcome.brief()}")
     out = crossed.outcome
@@ -257,12 +296,12 @@ class C04(common.Check):
             "located with ref.cms' offset map; algorithm substitution (content-encryption OID rewritten to every AES mode of the NIST arc x "
             "parameter shapes x content cut to blocks, all 256 last IV bytes for the CBC OIDs); flips/truncations of blobs with > 1 MiB content; pairs of overlapping async unprotects (valid blob A, modified blob B' carrying A's key "
             "identifier / nonce / wrapped CEK / content) on one simulated loop, online and offline; the same pairs from caller threads of one process (deterministic thread scheduler) and as histories on one shared "
-            "cache (B' rejected, A, B' again, A, B'); records rewritten at rest into public-key records whose DH public value (0, 1, p-1, or a group of the writer's choosing) makes the shared secret predictable; records rewritten by a keyless party (other key position, own CEK wrapped under the KEK that follows if the L2 / L1 / L0 / root key at some level of the chain were empty or zeros, own content) presented to a cache holding the root key, fresh or after honest use of the same cache; pairs of blobs protected by the library in one process with fields of one grafted onto the other; every flip / truncation of blobs whose plaintext is itself a blob (a secret protected twice). Non-trivial = stored bytes differ from the base blob; distinct = distinct (blob, faults).")
+            "cache (B' rejected, A, B' again, A, B'); records rewritten at rest into public-key records whose DH public value (0, 1, p-1, or a group of the writer's choosing) makes the shared secret predictable; records rewritten by a keyless party (other key position, own CEK wrapped under the KEK that follows if the L2 / L1 / L0 / root key at some level of the chain were empty or zeros, own content) presented to a cache holding the root key, fresh or after honest use of the same cache; records whose GCM parameters announce a 0..15-octet tag with a content carrying a tag of that length; pairs of blobs protected by the library in one process with fields of one grafted onto the other (in a third of them after B, or A and B, were opened on the same cache); every flip / truncation of blobs whose plaintext is itself a blob (a secret protected twice). Non-trivial = stored bytes differ from the base blob; distinct = distinct (blob, faults).")
     components = {"client": "real (ncrypt_unprotect_secret, DPAPINGBlob.unpack, KeyCache, key derivation, AES-KW/GCM via cryptography)",
                   "blob store": "simulated (fault injection at rest)", "network": "simulated, no DC reachable (attempts observed at the seam)",
                   "base blobs": "reference encoder (ref.cms) and the library's own protect"}
     assumptions = ["AES-KW and AES-GCM from the cryptography package are trusted primitives"]
-    required_fired = ("rot", "tear", "algsub", "big_content", "concurrent_pairs", "outcome_raise", "outcome_same", "shared_cache_histories", "nested_plaintext", "thread_pairs", "thread_overlap", "library_made_pairs", "library_made_pairs_threads", "forged_records", "keyless_rewrites", "keyless_rewrites_after_honest_use")
+    required_fired = ("rot", "tear", "algsub", "big_content", "concurrent_pairs", "outcome_raise", "outcome_same", "shared_cache_histories", "nested_plaintext", "thread_pairs", "thread_overlap", "library_made_pairs", "library_made_pairs_threads", "forged_records", "keyless_rewrites", "keyless_rewrites_after_honest_use", "short_tag_records", "library_made_pairs_after_honest_use")
 
     def exhaustive(self, tier):
         return tier == "thorough"
@@ -360,6 +399,11 @@ class C04(common.Check):
                     out.append(["forge2", bi, li, ci, pi, hi])
             elif ci == 0 or n % 3 == 0:
                 out.append(["forge2", nonce_blobs[n % len(nonce_blobs)], li, ci, pi, hi])
+        # GCM tag length rewritten (aes-ICVlen) together with a content that carries a tag of that length
+        for bi in range(len(cat)):
+            if tier == "thorough" or bi % 4 == 0:
+                for n in (0, 1, 4, 8, 12, 13, 15):
+                    out.append(["shorttag", bi, n])
         # blobs protected by the library itself in one process, fields of one grafted onto the other
         GRAFTS = (["enc_content"], ["enc_content", "gcm_nonce"], ["gcm_nonce"], ["enc_cek"], ["enc_cek", "key_identifier"], ["key_identifier"], ["kid.key_info"],
                   ["enc_content", "gcm_nonce", "enc_cek"], ["enc_content", "gcm_nonce", "kid.key_info"])
@@ -383,6 +427,8 @@ class C04(common.Check):
             return run_forge(case)
         if case[0] == "forge2":
             return run_forge2(case)
+        if case[0] == "shorttag":
+            return run_shorttag(case)
         if case[0] == "libpair":
             return run_libpair(case)
         if case[0] in ("conc", "hist", "tconc"):
@@ -426,7 +472,7 @@ class C04(common.Check):
             if case[5]:
                 yield case[:5] + [case[5] - 1]  # less history
             return
-        if case[0] in ("conc", "hist", "tconc", "libpair", "forge"):
+        if case[0] in ("conc", "hist", "tconc", "libpair", "forge", "shorttag"):
             return
         bi, faults = case
         for i in range(len(faults)):
@@ -436,6 +482,8 @@ class C04(common.Check):
     def sample_repr(self, case, res):
         if case[0] == "forge":
             return {"kind": "forge", "base_blob": case[1], "dh_public_value": FORGE_VARIANTS[case[2]]}
+        if case[0] == "shorttag":
+            return {"kind": "shorttag", "base_blob": case[1], "announced_tag_octets": case[2]}
         if case[0] == "forge2":
             return {"kind": "forge2", "base_blob": case[1], "level": GUESS_LEVELS[case[2]], "constant_len": len(GUESS_CONSTS[case[3]]), "position": GUESS_POSITIONS[case[4]], "history": GUESS_HISTORIES[case[5]]}
         if case[0] == "libpair":
